@@ -20,6 +20,7 @@ func (e *Engine) SweepMethod(pkgPath string, fn *types.Func, w *spec.WitnessReq,
 			err = fmt.Errorf("%s: %v", fn.Name(), r)
 		}
 	}()
+	e.bind()
 	pkg := e.Pkgs[pkgPath]
 	decl := e.funcs[fn]
 	e.consts = nil
@@ -120,6 +121,7 @@ func (e *Engine) SweepMethod(pkgPath string, fn *types.Func, w *spec.WitnessReq,
 
 // AxiomsConsistent produces the vacuity guard of a module: its axioms must not prove false.
 func (e *Engine) AxiomsConsistent(pkgPath string) *FuncReport {
+	e.bind()
 	sp := e.Specs[pkgPath]
 	e.consts = nil
 	e.fresh = 0
